@@ -217,6 +217,17 @@ class Ctx:
         rep = parse_assumptions(out, theorems)
         self.coverage["assumptions_report"].update(rep)
         self.coverage["discharged"] += len([t for t in theorems if t in rep])
+        if self.tier == "thorough":
+            # independent re-check of the compiled Props module and everything it depends on
+            mod = "Dawn." + props_rel[:-2].replace("/", ".")
+            t0 = time.time()
+            rc, cout = sh(["coqchk", "-silent", "-o", "-Q", ".", "Dawn", mod], cwd=COQ, timeout=3000)
+            summ = cout[cout.find("CONTEXT SUMMARY"):] if "CONTEXT SUMMARY" in cout else cout[-1500:]
+            self.coverage["coqchk"] = {"module": mod, "exit": rc, "wall_s": round(time.time() - t0, 1),
+                                       "summary": " ".join(summ.split())[:1500]}
+            if rc != 0:
+                self.broken_proof = {"file": props_rel, "coqchk": cout[-2000:]}
+                return False, rep
         axioms = sorted({a for v in rep.values() if v != "Closed under the global context" for a in v.split("; ")})
         if axioms:
             self.coverage["trusted_base"].append("axioms reported by Print Assumptions: " + ", ".join(axioms))
